@@ -36,6 +36,13 @@ BAD_CMDLINES = {
                    ['--keep-tmp-files', '@P1@', '@P2@'], ['/dev/null', '@P2@']]}
 
 
+VALUE_OPTS = ('dir', 'pkg', 'file', 'suppr', 'whitelist', 'keep', 'drop', '--d1', '--d2', '--wp', '--hd', '--hf', 'devel', '--appd', '--libd', 'path', 'style')
+
+
+def rng_takes_value(opt):
+    return any(v in opt for v in VALUE_OPTS)
+
+
 def make_items(ctx, only=None):
     # one item per tool; the item carries the shared workload
     libs = ctx.libs
@@ -44,6 +51,12 @@ def make_items(ctx, only=None):
     wls = []
     for i in range(8):
         wl = K.gen_workload(C.Prng(C.mix_seed(ctx.seed, 8, 7, i)), big=(i == 5), swarm=True)
+        if i == 0:      # a removed binary while every matched pair compares clean: the status comes from the removal alone
+            wl = {'files': [{'path': 'libtiny.so', 'v1': 'tiny_v0', 'v2': 'tiny_v1'}, {'path': 'libmathx.so', 'v1': 'mathx_v0', 'v2': None},
+                            {'path': 'libalias.so', 'v1': 'alias_v1', 'v2': 'alias_v1'}], 'format': 'dir', 'abignore': 'none', 'options': ['--no-default-suppression']}
+        if i == 2:      # a pair that ends with an error next to a clean pair and nothing else
+            wl = {'files': [{'path': 'libtiny.so', 'v1': 'tiny_v0', 'v2': 'tiny_v1_nodbg'}, {'path': 'libalias.so', 'v1': 'alias_v1', 'v2': 'alias_v1'}],
+                  'format': 'dir', 'abignore': 'none', 'options': ['--no-default-suppression', '--fail-no-dbg']}
         wl['format'] = 'dir' if i % 3 else 'tar'
         d = os.path.join(root, 'w%d' % i)
         os.makedirs(d)
@@ -57,7 +70,17 @@ def make_items(ctx, only=None):
         p = os.path.join(root, n + '.abi')
         open(p, 'wb').write(docs[n])
         docs[n + ':path'] = p
-    shared = {'wls': wls, 'docs': docs}
+    # every option each tool documents, read from its own --help: used for pairs of options on otherwise valid command lines
+    # (conflicting pairs such as --redundant --no-redundant, duplicates, options that want a value and do not get a sensible one)
+    helpopts = {}
+    for tool in ('abidiff', 'abicompat', 'abipkgdiff'):
+        o = ctx.run(tool, {'argv': [tool, '--help']})
+        import re
+        txt = (o.stdout or b'').decode('utf-8', 'replace') + (o.stderr or b'').decode('utf-8', 'replace')
+        helpopts[tool] = sorted(set(re.findall(r'(?<![\w-])(--[a-z][a-z0-9-]+)', txt)) - set(['--help', '--version']))
+        if len(helpopts[tool]) < 8:
+            raise C.InfraError('could not read the option list of %s from its --help output' % tool)
+    shared = {'wls': wls, 'docs': docs, 'helpopts': helpopts}
     items = {}
     for tool in ('abidiff', 'abicompat', 'abipkgdiff'):
         if only and tool != only:
@@ -77,8 +100,15 @@ def make_plans(ctx, tier, items):
             continue
         r = rng.below(100)
         p = {'tool': tool}
-        if r < 25:
+        if r < 12:
             p.update(kind='bad-cmdline', idx=rng.below(len(BAD_CMDLINES[tool])))
+        elif r < 25:
+            # two of the tool's own options on a command line with valid operands; pairs X / no-X are preferred
+            opts = items[tool]['helpopts'][tool]
+            a = rng.choice(opts)
+            twin = ('--no-' + a[2:]) if not a.startswith('--no-') else ('--' + a[5:])
+            b = twin if twin in opts and rng.chance(2, 3) else rng.choice(opts)
+            p.update(kind='option-pair', a=a, b=b, order=rng.below(2), value=rng.choice(['/nonexistent', '@A@', '.', '']))
         elif tool == 'abidiff':
             fam = rng.choice(fams); vs = K.FAMS[fam]
             p.update(a='%s_v%d' % (fam, rng.choice(vs)), b='%s_v%d' % (fam, rng.choice(vs)), opts=rng.choice(ABIDIFF_OPTS))
@@ -119,6 +149,16 @@ def execute(ctx, it, p):
     if p['kind'] == 'bad-cmdline':
         argv = [tool] + [sub.get(a, a) for a in BAD_CMDLINES[tool][p['idx']]]
         label = 'bad-cmdline:%d' % p['idx']
+    elif p['kind'] == 'option-pair':
+        operands = {'abidiff': ['@A@', '@B@'], 'abicompat': ['@APP@', '@A@', '@B@'], 'abipkgdiff': ['@P1@', '@P2@']}[tool]
+        pair = [p['a'], p['b']] if p['order'] == 0 else [p['b'], p['a']]
+        args = []
+        for o in pair:
+            args.append(o)
+            if p['value'] and rng_takes_value(o):
+                args.append(p['value'])
+        argv = [tool] + [sub.get(a, a) for a in args + operands]
+        label = 'option-pair'
     elif p['kind'] == 'pair':
         argv = ['abidiff'] + p['opts'] + [libs[p['a']], libs[p['b']]]
         label = 'pair:' + ' '.join(p['opts'])
